@@ -81,6 +81,17 @@ def cases(tier, seed):
                         "kernel": spec, "d": d, "n1": npat[0], "n2": npat[1], "rel": npat[2], "pbatch": pb, "xbatch": xb,
                         "path": rnd.choice(PATHS), "regime": rnd.choice(REGIMES), "seed": rnd.randrange(10**6),
                     }
+    # single precision slice: same formulas, float32 parameters and inputs, float32 results
+    for rep in range(1 if tier == "quick" else 4):
+        for spec in BASE + COMPOSED:
+            if spec["k"] in ("hamming",):
+                continue
+            d = spec.get("needs_d") or rnd.choice([1, 2, 3])
+            if spec["k"] in ("additive_structure", "product_structure", "newton_girard"):
+                d = rnd.choice([2, 3])
+            yield {"kernel": spec, "d": d, "n1": 5, "n2": 4, "rel": rnd.choice(["diff", "same"]), "pbatch": [], "xbatch": rnd.choice([[], [2]]), "path": "nograd", "regime": "random", "f32": True, "seed": rnd.randrange(10**6)}
+            # double precision objects while the process-wide default dtype is float32: nothing may be created in the default dtype
+            yield {"kernel": spec, "d": d, "n1": 5, "n2": 4, "rel": rnd.choice(["diff", "same"]), "pbatch": [], "xbatch": rnd.choice([[], [2]]), "path": "nograd", "regime": "random", "default_f32": True, "seed": rnd.randrange(10**6)}
     # inputs far from the origin, more rows than the pairwise-distance routines' small-matrix cut-over (25): the
     # covariance function depends on differences only, whatever the common offset
     far = [sp for sp in BASE if sp["k"] in ("rbf", "matern", "rq", "pp", "periodic", "cosine")] + COMPOSED[:2]
@@ -180,6 +191,18 @@ def _has(spec, name, **kv):
 def run_case(case, ctx):
     import torch
 
+    if case.get("default_f32"):
+        torch.set_default_dtype(torch.float32)
+        try:
+            return _run_case(case, ctx)
+        finally:
+            torch.set_default_dtype(torch.float64)
+    return _run_case(case, ctx)
+
+
+def _run_case(case, ctx):
+    import torch
+
     import gpytorch
     from gpytorch import settings as S
     from vf import util
@@ -219,6 +242,11 @@ def run_case(case, ctx):
     else:
         x1 = util.randn(g, *xb, n1, d)
         x2 = util.randn(g, *xb, n2, d)
+    if case.get("f32"):
+        kern = kern.float()
+        x1, x2 = x1.float(), x2.float()
+    if case.get("default_f32"):
+        kern = kern.double()
     if case["regime"] == "faraway":
         off = case["offset"] * (1 + util.rand(g, d))
         x1, x2 = x1 + off, x2 + off
@@ -243,11 +271,22 @@ def run_case(case, ctx):
         tol = (max(1e-8, 50 * case["offset"] * 2.3e-16 * _sens(kern)), 1e-8)
         if _has(spec, "matern", nu=0.5) or _has(spec, "pp"):
             tol = (max(tol[0], 1e-6), 1e-7)
-    cls = spec["k"] + ":" + path
+    cls = spec["k"] + ":" + path + (":default_f32" if case.get("default_f32") else "")
+    if case.get("f32"):
+        tol = (2e-5, 2e-4)
+        cls = spec["k"] + ":f32"
+        # the oracle reads the (float32) parameter values and works in float64
+        kern_ref = __import__("copy").deepcopy(kern).double()
     try:
         with S.trace_mode(path == "trace"):
             got = kern(x1, x2).to_dense()
-            ref = _oracle(spec, kern, x1.detach(), x2.detach())
+            if case.get("default_f32"):
+                ctx.expect("dtype_preserved", got.dtype == torch.float64, f"float64 kernel on float64 inputs returned {got.dtype} under a float32 default dtype", kclass=type(kern).__name__)
+            if case.get("f32"):
+                ctx.expect("dtype_preserved", got.dtype == torch.float32, f"float32 kernel on float32 inputs returned {got.dtype}", kclass=type(kern).__name__)
+                ref = _oracle(spec, kern_ref, x1.detach().double(), x2.detach().double())
+            else:
+                ref = _oracle(spec, kern, x1.detach(), x2.detach())
             ctx.close("kernel_value", got, ref.expand(got.shape) if ref.numel() != got.numel() else ref, tol, cls=cls)
             if n1 == n2:
                 try:
